@@ -135,6 +135,17 @@ def run_for_property(prop, tier="quick", only=None, jobs=4):
         os.makedirs(os.path.dirname(KANI_TARGET), exist_ok=True)
         lockf = open(os.path.join(os.path.dirname(KANI_TARGET), "kani.lock"), "w")
         fcntl.flock(lockf, fcntl.LOCK_EX)
+        # cargo decides freshness of a path package by comparing source mtimes with the last build's dep-info; the
+        # shared target dir may hold a build of ANOTHER tree finished after this scratch copy was made (a concurrent
+        # `pv check` on a modified tree): make every source of this copy newer than anything built before, so that
+        # the crate is always rebuilt from THIS copy
+        now = time.time()
+        for root, _dirs, files in os.walk(os.path.join(dst, "src")):
+            for fn in files:
+                try:
+                    os.utime(os.path.join(root, fn), (now, now))
+                except OSError:
+                    pass
         # first harness alone (compiles the crate once), the rest in parallel
         def one(uh):
             u, h = uh
